@@ -430,10 +430,13 @@ class _Gen:
         key = rng.choice(['COM', 'OTL', 'voices', 'ENC', 'COM'])
         val = rng.choice(['Bach, J.S.', 'Coltrane', 'Blue Train', '1', 'naïve title', 'x: y', '"q"', 'a,b'])
         r = rng.random()
-        if r < 0.6:
+        if r < 0.55:
             txt = f'!!!{key}: {val}'
-        elif r < 0.85:
+        elif r < 0.78:
             txt = f'!!{val}'
+        elif r < 0.88:
+            # a plain remark that names a key without being that record: '!! COM: see below', '!!-ENC', '!!:OTL: x'
+            txt = '!!' + rng.choice([' ', '-', ':', '\t' if False else '.']) + f'{key}: {val}'
         else:
             txt = f'!!!{key}:{val}'
         self.add(Line('g', text=txt))
